@@ -68,6 +68,12 @@ class C14(Prop):
                                              for _ in range(rng.randint(1, 4))]})
                 case["both_profiles"] = other
                 case["other_first"] = False
+            if rng.random() < 0.25 and buckets:
+                # events the legacy store keeps faithfully although they are unusual: negative durations, instants before 1970
+                # with a fractional second
+                b = rng.choice(buckets)
+                b["events"] = b["events"] + [[None, T0 + 5_000_000, -250_000, storegen.LABELS[0]], [None, -1_500_000, 2_000_000, storegen.LABELS[1]],
+                                             [None, -86_400_000_000 + 123_000, rng.choice([0, 1]), storegen.LABELS[0]]][: rng.randint(1, 3)]
             if rng.random() < 0.15 and buckets:
                 # events dated after the day of the migration (a clock that ran ahead; years after 2100 only draw a warning)
                 b = rng.choice(buckets)
